@@ -31,6 +31,32 @@ PROPS = {
     "C20": dict(level="exploration", shards=(2, 16), timeout=(300, 1500), assumptions=COMMON),
 }
 
+# Generator health: labels that the design calls essential. If one of them occurs in fewer than 1 % of the cases of
+# its check, the run is inconclusive (exit 2): more cases would not help, the generator has to be fixed.
+ESSENTIAL = {
+    "C01_message": ["metachar-text", "two-or-more-extensions"], "C01_iq": ["metachar-text"], "C01_node": ["node-depth>=2"],
+    "C02_stream": ["nested-same-name", "small-reads", "corrupt-truncate", "corrupt-flip"],
+    "C03_negotiation": ["expect-success", "resumable-state", "dev-unexpected", "dev-malformed", "dev-close"],
+    "C04_tls": ["expect-auth-inside-tls", "reconnect", "cert-wronghost", "cert-expired"],
+    "C05_inbound": ["segmented", "stanza>4KB", "client-ws-sm-on", "component-tcp-sm-off"],
+    "C06_router": ["several-routes-accept", "no-route-accepts", "unhandled-iq-request", "first-match-not-first-route"],
+    "C07_iqresult": ["parked-at-yield-point", "duplicate-response", "cancellation"],
+    "C07_stress": ["racing-cancellation", "abandoned-receiver"],
+    "C08_send": ["concurrent", "send-after-disconnect", "client-ws", "client-tls", "component-tcp"],
+    "C09_smcount": ["resumption", "r-after-non-stanza", "earlier-connections-without-sm"],
+    "C10_smqueue": ["ack-with-unacked-suffix", "stale-ack", "ack-beyond-sent", "server-r"],
+    "C11_resume": ["resumed", "non-success-reply"],
+    "C12_cut": ["tls", "logger", "sm", "cut-in-tag", "cut-in-text", "cut-between-elements"],
+    "C13_streammanager": ["server-down", "failing-attempts", "end-streamclose", "end-reset", "permanent-error"],
+    "C14_sasl": ["no-common-mechanism", "list-changes-across-starttls", "reconnection-with-other-list", "reply-failure"],
+    "C15_jid": ["must-reject", "must-accept", "domain-with-resource", "resource-with-slash-or-at"],
+    "C16_component": ["id-or-secret-needs-escaping", "reply-stream-error", "reply-unexpected"],
+    "C17_fifo": ["pop-after-empty-and-refill", "mixed-peek-pop"],
+    "C18_keepalive": ["ping-failure", "session-end", "end-to-end"],
+    "C19_backoff": ["overflowing-attempt", "reset", "jitter", "no-jitter"],
+    "C20_address": ["ipv6", "explicit-port", "ws", "wss"],
+}
+
 NOT_APPLICABLE = {}
 
 # Texts for MANIFEST.json
